@@ -360,6 +360,10 @@ class Interp:
         if isinstance(a, LazyContainer) and isinstance(b, LazyContainer) and (a.resolved is None or b.resolved is None):
             return a is b
         a, b = self.deref(a), self.deref(b)
+        if hasattr(self.model, "identical_hook"):
+            r = self.model.identical_hook(self, a, b)
+            if r is not NotImplemented:
+                return r
         if a is None or b is None:
             return _zand([self.is_none(a), self.is_none(b)])
         if isinstance(a, bool) and isinstance(b, bool):
